@@ -10,6 +10,7 @@ Per path of A that evaluates to completion, z3-feasible under the path condition
 top-level bindings B leaves must equal A's (z3 validity over the symbolic leaves). A path where A fails says nothing."""
 import hashlib
 import os
+import re
 import sys
 import tempfile
 import z3
@@ -210,7 +211,12 @@ def harness(ctx, case):
     def report(kind, what, extra=None):
         m = ctx.model(extra)
         text = SP.render_text(case['text'], m, ctx, ints)
-        out['violations'].append({'key': 'C07:%s:sk=%s' % (kind, sk), 'what': '%s — program: %s' % (what, text), 'case': {'kind': 'eval', 'text': text, 'strict': True, 'env': case.get('env') or {}}, 'check': kind})
+        ident = 'sk=%s' % sk
+        mm = re.match(r'^let r = \((.+)\) (&&|\|\|) (\S+);$', case['text'].strip())
+        if kind == 'build-rejects' and mm and 'Expected boolean but got' in what and mm.group(3) not in ('true', 'false'):
+            # one finding per operator, whatever the left operand is: the checker types an operand the evaluator skips
+            ident = 'role=short-circuited-right-operand-of-%s' % mm.group(2)
+        out['violations'].append({'key': 'C07:%s:%s' % (kind, ident), 'what': '%s — program: %s' % (what, text), 'case': {'kind': 'eval', 'text': text, 'strict': True, 'env': case.get('env') or {}}, 'check': kind})
 
     if resB.variant != 0:
         from mirsym.bi_str import render_value
